@@ -21,6 +21,7 @@ import (
 	"sort"
 	"strings"
 	"sync"
+	"sync/atomic"
 	"time"
 
 	"git.arvados.org/arvados.git/internal/verifkit"
@@ -213,7 +214,7 @@ func c14GenCfg(rng *verifkit.Rand, thorough bool) c14RunCfg {
 	}
 	perm := rng.Perm(n)
 	for i := 0; i < nv; i++ {
-		cfg.Actions = append(cfg.Actions, c14Action{Kind: rng.PickStr("cancel", "cancel", "prio0", "prio0", "requeue"), Victim: perm[i]})
+		cfg.Actions = append(cfg.Actions, c14Action{Kind: rng.PickStr("cancel", "cancel", "prio0", "prio0", "requeue", "kill-instance", "kill-instance"), Victim: perm[i]})
 	}
 	for i := rng.Range(2, 5); i > 0; i-- {
 		cfg.Actions = append(cfg.Actions, c14Action{Kind: rng.PickStr("hold", "drain"), At: rng.Range(2, n*3/4)})
@@ -314,8 +315,19 @@ type c14VM struct {
 	// and delay of the answer of crunch-run --list (snapshot taken at arrival)
 	preDetach time.Duration
 	listLag   time.Duration
-	destroyed int64 // time of successful Destroy return; 0 = still exists
-	windows   []c14Window
+	// the next destroyFailLeft Destroy calls for this instance fail (before
+	// calm): an instance whose destruction was requested stays around
+	destroyFailLeft int
+	// every SSH command fails during [outFrom, outTo): a temporary outage
+	outFrom, outTo time.Time
+	// compound fault, armed by the first crunch-run start on the VM (so that
+	// it strikes a BUSY instance): from reportNs on "crunch-run --list"
+	// also says "broken", from deadNs on no SSH command is answered any more
+	// (unix nanoseconds, 0 = not armed; accessed atomically)
+	compound         bool
+	reportNs, deadNs int64
+	destroyed        int64 // time of successful Destroy return; 0 = still exists
+	windows          []c14Window
 	// first "--list" answer containing "broken" seen by generation g, and
 	// the first "--list" call begun after that
 	brokenSeen map[int]int64
@@ -465,6 +477,9 @@ func (w *c14World) chance(pct int) bool {
 	defer w.rngMu.Unlock()
 	return w.rng.Intn(100) < pct
 }
+
+// rng0 is rnd for callers that hold w.mu (rngMu is independent of w.mu).
+func (w *c14World) rng0(lo, hi int) int { return w.rnd(lo, hi) }
 
 func (w *c14World) rnd(lo, hi int) int {
 	w.rngMu.Lock()
@@ -687,6 +702,20 @@ func (inst *c14Instance) Destroy() error {
 		}
 	}
 	w.mu.Unlock()
+	sticky := false
+	if !w.isCalm() {
+		w.mu.Lock()
+		if vm := w.vms[inst.id]; vm != nil && vm.destroyFailLeft > 0 {
+			vm.destroyFailLeft--
+			sticky = true
+		}
+		w.mu.Unlock()
+	}
+	if sticky {
+		w.count("fault_destroy_error_sticky", 1)
+		w.log.add(c14Event{Kind: "destroy-ret", Gen: g.n, VM: inst.id, Info: "injected error (instance lingers)"})
+		return errors.New("c14: injected destroy failure")
+	}
 	if !w.isCalm() && w.chance(w.cfg.DestroyErr) {
 		w.count("fault_destroy_error", 1)
 		w.log.add(c14Event{Kind: "destroy-ret", Gen: g.n, VM: inst.id, Info: "injected error"})
@@ -1148,7 +1177,21 @@ func (w *c14World) setupVM(svm *test.StubVM) {
 		vm.kind = "unkillable"
 		vm.unkill = true
 	} else if !w.isCalm() && w.chance(w.cfg.FaultyVMPct) {
-		switch w.rnd(0, 11) {
+		switch w.rnd(0, 15) {
+		case 12, 13, 15:
+			// compound fault: reports itself broken (the pool drains it)
+			// and shortly afterwards stops answering altogether; most of
+			// its crunch-run processes die without finalizing the container
+			vm.kind = "reports-broken-then-dead"
+			vm.compound = true
+			svm.CrunchRunCrashRate = 0.8
+		case 14:
+			// temporary outage longer than TimeoutProbe, and an instance
+			// that the cloud fails to destroy for a while
+			vm.kind = "outage"
+			vm.outFrom = now.Add(time.Duration(w.rnd(50, 300)) * time.Millisecond)
+			vm.outTo = vm.outFrom.Add(time.Duration(w.rnd(600, 900)) * time.Millisecond)
+			vm.destroyFailLeft = w.rnd(15, 30)
 		case 9, 10:
 			vm.kind = "slow-start"
 			svm.CrunchRunDetachDelay = time.Duration(w.rnd(100, 400)) * time.Millisecond
@@ -1234,7 +1277,31 @@ func (w *c14World) setupVM(svm *test.StubVM) {
 				w.finding("C14:S3:start-attempt-on-booting-instance", fmt.Sprintf("crunch-run --detach for %s arrived at %s (fault kind %s) before its boot time\n%s", uuid, id, vm.kind, w.log.history(id, "", 20)))
 			}
 		}
+		if dn := atomic.LoadInt64(&vm.deadNs); dn != 0 && time.Now().UnixNano() >= dn {
+			fmt.Fprintln(stderr, "c14: instance does not answer any more")
+			w.count("fault_fired_drained_instance_dead_refused_exec", 1)
+			if kind == "detach" {
+				w.log.add(c14Event{Kind: "vm-detach-ret", VM: id, UUID: uuid, Info: "rc=2 dead"})
+			}
+			return 2
+		}
+		if !vm.outFrom.IsZero() {
+			if t := time.Now(); !t.Before(vm.outFrom) && t.Before(vm.outTo) {
+				fmt.Fprintln(stderr, "c14: instance temporarily unreachable")
+				w.count("fault_fired_outage_refused_exec", 1)
+				if kind == "detach" {
+					w.log.add(c14Event{Kind: "vm-detach-ret", VM: id, UUID: uuid, Info: "rc=2 outage"})
+				}
+				return 2
+			}
+		}
 		rc := orig(env, command, stdin, stdout, stderr)
+		if kind == "list" && rc == 0 {
+			if rn := atomic.LoadInt64(&vm.reportNs); rn != 0 && time.Now().UnixNano() >= rn {
+				fmt.Fprintln(stdout, "broken")
+				w.count("fault_fired_busy_instance_reported_broken", 1)
+			}
+		}
 		if kind == "list" && rc == 0 && vm.listLag > 0 {
 			time.Sleep(vm.listLag) // the answer (already produced) arrives late
 			w.count("slow_list_answers", 1)
@@ -1243,6 +1310,12 @@ func (w *c14World) setupVM(svm *test.StubVM) {
 		case "detach":
 			tr := w.log.add(c14Event{Kind: "vm-detach-ret", VM: id, UUID: uuid, OK: rc == 0, Info: fmt.Sprintf("rc=%d", rc)})
 			if rc == 0 {
+				if vm.compound && atomic.LoadInt64(&vm.reportNs) == 0 {
+					r := time.Now().Add(time.Duration(w.rnd(3, 30)) * time.Millisecond)
+					atomic.StoreInt64(&vm.deadNs, r.Add(time.Duration(w.rnd(15, 50))*time.Millisecond).UnixNano())
+					atomic.StoreInt64(&vm.reportNs, r.UnixNano())
+					w.count("compound_fault_armed_on_busy_instance", 1)
+				}
 				w.observeAll()
 				w.mu.Lock()
 				w.starts = append(w.starts, c14StartRec{vm: id, uuid: uuid, tc: tc, tr: tr})
@@ -1350,6 +1423,23 @@ func (w *c14World) hitVictim(vm *c14VM, uuid, kind string) {
 		}
 		w.cond.Broadcast()
 		w.mu.Unlock()
+	}
+	if kind == "kill-instance" {
+		// the operator kills the busy instance through the management API;
+		// the cloud fails to destroy it for a while; then the container is
+		// cancelled
+		g := w.curGen()
+		w.mu.Lock()
+		vm.destroyFailLeft = w.rng0(10, 30)
+		w.mu.Unlock()
+		w.log.add(c14Event{Kind: "op-killinstance-call", Gen: g.n, VM: vm.id, UUID: uuid})
+		err := g.pool.KillInstance(cloud.InstanceID(vm.id), "c14 operator")
+		w.log.add(c14Event{Kind: "op-killinstance-ret", Gen: g.n, VM: vm.id, OK: err == nil})
+		if err == nil {
+			w.count("operator_kill_busy_instance", 1)
+		}
+		time.Sleep(time.Duration(w.rnd(5, 40)) * time.Millisecond)
+		kind = "cancel"
 	}
 	ok := w.tq.C14Mutate(uuid, func(c *arvados.Container) bool {
 		switch kind {
@@ -1491,7 +1581,7 @@ func c14NewWorld(prop string, cfg c14RunCfg) (*c14World, error) {
 	}
 	for _, a := range cfg.Actions {
 		switch a.Kind {
-		case "cancel", "prio0", "requeue":
+		case "cancel", "prio0", "requeue", "kill-instance":
 			w.victim[w.uuids[a.Victim%len(w.uuids)]] = a.Kind
 		}
 	}
